@@ -16,7 +16,7 @@ import sys
 from decimal import Decimal
 from fractions import Fraction as F
 
-from .. import tlaval
+from .. import defreg, tlaval
 from ..engine import MachineryError, alarm, CaseTimeout
 
 TOK = {"n2": "2", "n3": "3", "m": "m"}
@@ -149,7 +149,12 @@ def word_forms(chk):
              ("2 m 3 s", "2 * m * 3 * s"), ("7 // 2 * 2", "(7 // 2) * 2"), ("9 - 7 // 2", "9 - (7 // 2)"), ("m/m(3)", "m / m * 3"),
              ("6/(2)m", "6 / 2 * m"), ("kg/m²s", "kg / m ** 2 * s"), ("(2)(3)**2", "2 * 3 ** 2"), ("4/(2)(2)", "4 / 2 * 2"),
              ("2(m)**2", "2 * m ** 2") if False else ("3 (m)**2", "3 * m ** 2"), ("1e3 m", "1000.0 m"), ("1.5e-3 m", "0.0015 m"), ("1,000 m", "1000 m")]
+    # the same texts with runs of blanks and tabs between the words
+    extra = []
     for a, b in pairs:
+        if " " in a:
+            extra += [(a.replace(" ", "  "), b), (a.replace(" ", "\t"), b), (a.replace(" ", "   ", 1), b), ("  " + a + " ", b)]
+    for a, b in pairs + extra:
         chk.case(("word-form", a))
         try:
             qa, qb = u.parse_expression(a), u.parse_expression(b)
@@ -160,22 +165,25 @@ def word_forms(chk):
         if not same:
             chk.diverge({"clause": "word-form", "text": a}, {"a": a, "b": b, "parsed_a": str(qa), "parsed_b": str(qb)})
     # integers stay integers; decimals take the registry's type
-    for text, T in (("3 m", int), ("3.0 m", float), ("6 m / 2", float), ("2 ** 3 m", int), ("7 // 2 m", int)):
+    for text, T, val in (("3 m", int, 3), ("3.0 m", float, 3.0), ("6 m / 2", float, 3.0), ("2 ** 3 m", int, 8), ("7 // 2 m", int, 3), ("1_000 m", int, 1000),
+                         ("9_007_199_254_740_993 m", int, 9007199254740993), ("7_0 // 8 m", int, 8), ("1_0.5 m", float, 10.5), ("1e0_1 m", float, 10.0)):
         chk.case(("literal-type", text))
         try:
             m = u.parse_expression(text).magnitude
         except Exception as e:
             chk.diverge({"clause": "word-form-raises", "exc": type(e).__name__, "text": text}, {"text": text})
             continue
-        if type(m) is not T:
-            chk.diverge({"clause": "literal-type", "text": text}, {"text": text, "expected": T.__name__, "observed": type(m).__name__})
+        if T is not None and (type(m) is not T or m != val):
+            chk.diverge({"clause": "literal-type", "text": text}, {"text": text, "expected": [T.__name__, val], "observed": [type(m).__name__, repr(m)]})
 
 
 FUZZ_SEEDS = ["__import__('os').system('true')", "().__class__.__bases__[0].__subclasses__()", "meter.__class__", "open('/etc/passwd').read()",
               "eval('1')", "exec('x=1')", "lambda: 1", "[x for x in (1,2)]", "meter if 1 else second", "1; import os", "os.getcwd()",
               "getattr(meter, 'units')", "meter.units", "meter[0]", "f'{1}'", "meter @ second", "3 meter and 2", "print(1)", "{1: 2}",
               "__builtins__", "globals()", "compile('1','','eval')", "meter.__init__.__globals__", "(lambda:0).__code__", "1 if meter else 2",
-              "meter := 3", "not meter", "~meter", "meter << 2", "meter, second", "*meter", "**meter", "3 meter # comment", "\\x00", "meter\\nimport os"]
+              "meter := 3", "not meter", "~meter", "meter << 2", "meter, second", "*meter", "**meter", "3 meter # comment", "\\x00", "meter\\nimport os",
+              # source-encoding cookies: a tokenizer working on bytes looks the named codec up (import of a module chosen by the input)
+              "# coding: cp500\n2 m", "#coding:hz\n3", "# -*- coding: iso2022_kr -*-\n3 meter", "# vim: set fileencoding=cp1140 :\n3 meter", "\n# coding: big5hkscs\n3"]
 
 
 def no_execution(chk, rng, n):
@@ -219,6 +227,27 @@ def no_execution(chk, rng, n):
                 chk.diverge({"clause": "code-execution-or-io", "event": state["events"][0][0], "form": name}, {"text": text, "events": state["events"][:5]})
             if outcome == "value" and not (hasattr(r, "magnitude") or hasattr(r, "dimensionality") or hasattr(r, "nominal_value") or isinstance(r, (int, float, F, Decimal))):
                 chk.diverge({"clause": "non-quantity-result", "form": name}, {"text": text, "type": type(r).__name__})
+    # no attribute access: a name that is an attribute of the registry object (or of its classes) but not a unit by the naming rule
+    # (decided on the reader's tables) must be refused as an undefined unit, alone and inside an expression
+    names = sorted(n for n in set(dir(u)) | set(vars(u)) | {"sys", "os", "self", "registry", "ureg", "pint"} if n.isidentifier() and not defreg.readings(n))
+    if len(names) < 60:
+        raise MachineryError("only %d attribute names to try" % len(names))
+    for n in names:
+        for text in (n, "2 " + n, "3 * %s / 2" % n):
+            chk.case(("attribute-name", text), nontrivial=True)
+            state["events"] = []
+            state["on"] = True
+            try:
+                r = u.parse_expression(text)
+                outcome = "value:" + repr(r)[:60]
+            except pint.UndefinedUnitError:
+                outcome = "undefined"
+            except BaseException as e:
+                outcome = "raises:" + type(e).__name__
+            finally:
+                state["on"] = False
+            if outcome != "undefined" or state["events"]:
+                chk.diverge({"clause": "attribute-name-not-refused", "outcome": outcome.split(":")[0]}, {"text": text, "outcome": outcome, "events": state["events"][:3]})
     chk.samples.append({"fuzz_input": inputs[len(FUZZ_SEEDS) + 3]})
     chk.notes["fuzz_inputs"] = len(inputs)
 
